@@ -277,6 +277,10 @@ def sent_types(r: Dict[str, Any]) -> List[int]:
 def expected_accept(case: Dict[str, Any]) -> Optional[bool]:
     """OpenSSH/property semantics from the generator's intent; None = composite case (no independent truth)."""
     it = case['intent']
+    if case.get('scenario') == 'callback' and case['kh']['form'] != 'none' and \
+            (it.get('key_revoked') or it.get('ca_revoked')):
+        # revocation wins whatever the application's validate_host_public_key / validate_host_ca_key answer
+        return False
     if it.get('composite') or case['kh']['form'] == 'none':
         return None
     spec = case['creds'][0]
